@@ -523,7 +523,7 @@ fn main() {
     mon.set_rule("case = one put/get/store_local/put_with_targets/injected remote Put on a MemNet of real nodes with all stores dumped at quiescence; non-trivial when >=2 nodes and >=1 RPC frame, or a size probe at 511-513; distinct by (op, N, value-size class, fault class, #frames/outcome)");
     mon.assume("in-memory link below TransportHandle; aligned ids; one operation at a time so a dump after the operation reflects exactly that operation");
     mon.assume("a get may return any bytes ever offered to a store path under that key (puts that failed part-way included)");
-    let per_shard = mon.by_tier(60u64, 25_000);
+    let per_shard = mon.by_tier(300u64, 25_000);
     vkit::run_shards(mon.shards(), mon.seed, |_i, mut rng| {
         for _ in 0..per_shard {
             if mon.time_up() {
